@@ -150,6 +150,9 @@ class Env:
         self.add(time.gmtime, lambda a, k: self.gmt, "time.gmtime")
         self.add(calendar.timegm, self.timegm, "calendar.timegm")
         self.add(time.sleep, self.sleep, "time.sleep")
+        self.now = None
+        self.clock_reads = 0
+        self.add(time.time, self.time, "time.time")
         self.add(timeit.default_timer, lambda a, k: 0.0, "mysensors.task.timer")
         import asyncio
         import threading
@@ -190,6 +193,16 @@ class Env:
     def sleep(self, a, k):
         self.sleeps.append(a[0])
         return None
+
+    def time(self, a, k):
+        """time.time(): an arbitrary non-decreasing instant."""
+        w = self.w
+        t = w.fresh_real(f"t{self.clock_reads}", 0)
+        self.clock_reads += 1
+        if self.now is not None:
+            w.assume_fast(w.le(self.now, t))
+        self.now = t
+        return t
 
     def make_timer(self, a, k):
         t = FakeTimer(self, a[0], a[1])
